@@ -1455,6 +1455,7 @@ class Parser:
             defs_path = pathlib.Path(msgdefs_file)
             self.root_path = defs_path.parent.resolve()
             self.parse_file(defs_path)
+            self.check_generated_names()
         except Exception as e:
             self.clear()
             raise
